@@ -199,7 +199,9 @@ func TestC08_Sequences(t *testing.T) {
 			if rerr != nil {
 				rt.Fatalf("VERIF-INCONCLUSIVE reference client failed: %v", rerr)
 			}
-			gd, wd := blocksDigestPlan(got, f.matches, gf), blocksDigestPlan(want, f.matches, gf)
+			// every reader gets a private copy of the cached segment (e724497): the result is
+			// compared in full — blocks, transactions, every log, receipt field and trace
+			gd, wd := blocksDigestPlan(got, nil, nil), blocksDigestPlan(want, nil, nil)
 			if gd != wd {
 				rt.Fatalf("VERIF-VIOLATION property=C08 cached client returned other data than an uncached client for Get(%s,%d,%d)\n got:  %.900s\n want: %.900s\n history:\n %s", f.name, r.start, r.limit, gd, wd, strings.Join(hist, "\n "))
 			}
@@ -263,7 +265,7 @@ func TestC08_Concurrent(t *testing.T) {
 				got, err := e.cached.Get(context.Background(), e.url, c.f.glf(), c.start, c.limit)
 				errs[i] = err
 				if err == nil {
-					results[i] = blocksDigestPlan(got, c.f.matches, c.f.glf())
+					results[i] = blocksDigestPlan(got, nil, nil)
 				}
 			}(i, c)
 		}
@@ -279,7 +281,7 @@ func TestC08_Concurrent(t *testing.T) {
 			if rerr != nil {
 				rt.Fatalf("VERIF-INCONCLUSIVE reference client failed: %v", rerr)
 			}
-			if wd := blocksDigestPlan(want, c.f.matches, c.f.glf()); wd != results[i] {
+			if wd := blocksDigestPlan(want, nil, nil); wd != results[i] {
 				rt.Fatalf("VERIF-VIOLATION property=C08 concurrent caller %d Get(%s,%d,%d) got other data than an uncached client\n got:  %.900s\n want: %.900s", i, c.f.name, c.start, c.limit, results[i], wd)
 			}
 			if c.start != s || c.limit != l {
